@@ -133,6 +133,9 @@ func pickAdapterCfgNarrow() (*pipeCfg, bool) {
 
 // pickMsgs: 0..maxF messages with symbolic content; per-message compressed flag forked when the
 // stream declared a compression (the dimension real clients never vary).
+// unaryKindNoMessage: harnesses that set it also generate unary calls whose enveloped client sends no message at all
+var unaryKindNoMessage bool
+
 func pickMsgs(name string, enveloped bool, declaredComp bool, unaryKind bool) []wireMsg {
 	maxF, maxP := 2, 1
 	deep := verifTier() == 1 && ((pipeThoroughSlice == sliceDeepReq && name == "req") || (pipeThoroughSlice == sliceDeepResp && name == "resp"))
@@ -142,6 +145,8 @@ func pickMsgs(name string, enveloped bool, declaredComp bool, unaryKind bool) []
 	n := 1
 	if enveloped && !unaryKind {
 		n = verifChoose(name+".count", maxF+1)
+	} else if enveloped && unaryKindNoMessage && name == "req" && verifChoose(name+".none", 2) == 1 {
+		n = 0 // an enveloped client that ends its stream without the one message a unary method takes
 	}
 	msgs := make([]wireMsg, n)
 	for i := range msgs {
@@ -168,6 +173,8 @@ func pipeIsPassThrough(cfg *pipeCfg) bool {
 
 // hC01Pipe: messages arrive intact in both directions for well-formed RPCs.
 func hC01Pipe() {
+	unaryKindNoMessage = true
+	defer func() { unaryKindNoMessage = false }() // (the native twin runs many cases in one process)
 	cfg, ok := pickPipeCfg()
 	if !ok {
 		return
